@@ -220,4 +220,80 @@ theorem cmp_tt (a b c : Term) : TT (fastCompare a b) (fastCompare b c) (fastComp
     cases b <;> cases c <;> simp [tag] at h1 h2
     exact TT.then (cmpTy_tt _ _ _) (fun _ _ => ih _ _)
 
+
+/-- `fast_compare` does not distinguish `==` terms -/
+theorem cmp_congr_left (a a' b : Term) (h : Term.aeq a a' = true) :
+    fastCompare a b = fastCompare a' b := by
+  have e : fastCompare a a' = .eq := (cmp_eq a a').2 h
+  have e' : fastCompare a' a = .eq := by rw [← cmp_swap a a', e]; rfl
+  obtain ⟨_, _, t3, t4⟩ := cmp_tt a a' b
+  obtain ⟨_, _, u3, u4⟩ := cmp_tt a' a b
+  cases hb : fastCompare a' b with
+  | lt => exact t3 e hb
+  | eq => exact t4 e hb
+  | gt =>
+    cases ha : fastCompare a b with
+    | lt => have := u3 e' ha; rw [hb] at this; cases this
+    | eq => have := u4 e' ha; rw [hb] at this; cases this
+    | gt => rfl
+
+theorem cmp_congr_right (a b b' : Term) (h : Term.aeq b b' = true) :
+    fastCompare a b = fastCompare a b' := by
+  rw [← cmp_swap b a, ← cmp_swap b' a, cmp_congr_left b b' a h]
+
+
+/-- strictly increasing w.r.t. `fast_compare` -/
+def StrictSorted (l : List Term) : Prop := l.Pairwise (fun a b => fastCompare a b = .lt)
+
+theorem lt_irrefl_of_aeq {a b : Term} (h : Term.aeq a b = true) (hl : fastCompare a b = .lt) : False := by
+  rw [(cmp_eq a b).2 h] at hl; cases hl
+
+/-- two strictly increasing lists with the same elements up to `==` are equal up to `==`, position
+by position -/
+theorem strictSorted_unique : ∀ (l1 l2 : List Term), StrictSorted l1 → StrictSorted l2 →
+    (∀ a ∈ l1, ∃ b ∈ l2, Term.aeq a b = true) → (∀ b ∈ l2, ∃ a ∈ l1, Term.aeq a b = true) →
+    Forall2 (fun a b => Term.aeq a b = true) l1 l2
+  | [], [], _, _, _, _ => .nil
+  | [], b :: _, _, _, _, h21 => by
+    exfalso
+    obtain ⟨a, ha, _⟩ := h21 b (by simp)
+    cases ha
+  | a :: _, [], _, _, h12, _ => by
+    exfalso
+    obtain ⟨b, hb, _⟩ := h12 a (by simp)
+    cases hb
+  | a :: t1, b :: t2, s1, s2, h12, h21 => by
+    have s1' := List.pairwise_cons.1 s1
+    have s2' := List.pairwise_cons.1 s2
+    have hab : Term.aeq a b = true := by
+      obtain ⟨b', hb', e1⟩ := h12 a (by simp)
+      obtain ⟨a', ha', e2⟩ := h21 b (by simp)
+      rcases List.mem_cons.1 hb' with rfl | hb't
+      · exact e1
+      rcases List.mem_cons.1 ha' with rfl | ha't
+      · exact e2
+      exfalso
+      -- b < b' == a  and  a < a' == b
+      have h1 : fastCompare b a = .lt := by
+        rw [cmp_congr_right b a b' e1]; exact s2'.1 b' hb't
+      have h2 : fastCompare a b = .lt := by
+        rw [← cmp_congr_right a a' b e2]; exact s1'.1 a' ha't
+      rw [← cmp_swap b a, h1] at h2
+      cases h2
+    refine .cons hab (strictSorted_unique t1 t2 s1'.2 s2'.2 ?_ ?_)
+    · intro x hx
+      obtain ⟨y, hy, e⟩ := h12 x (List.mem_cons_of_mem _ hx)
+      rcases List.mem_cons.1 hy with rfl | hyt
+      · exfalso
+        have : Term.aeq a x = true := Term.aeq_trans a y x hab (Term.aeq_symm x y e)
+        exact lt_irrefl_of_aeq this (s1'.1 x hx)
+      · exact ⟨y, hyt, e⟩
+    · intro y hy
+      obtain ⟨x, hx, e⟩ := h21 y (List.mem_cons_of_mem _ hy)
+      rcases List.mem_cons.1 hx with rfl | hxt
+      · exfalso
+        have : Term.aeq b y = true := Term.aeq_trans b x y (Term.aeq_symm x b hab) e
+        exact lt_irrefl_of_aeq this (s2'.1 y hy)
+      · exact ⟨x, hxt, e⟩
+
 end Holpy.C03
